@@ -54,7 +54,7 @@ class C18(Profile):
         n_ident = rng.randrange(1, 4)
         n_sdo = rng.randrange(2, 7)
         pool = SW.gen_pool(rng, index, n_ident, 3, [('identity', 1)]) + \
-            SW.gen_pool(rng, index + 500000, n_sdo, rng.choice([1, 2, 3]), [('sdo', 1)])
+            SW.gen_pool(rng, index + 500000, n_sdo, rng.choice([1, 2, 3]), [('sdo', 1)], upper_ids=rng.choice([0, 0, 0.3, 1.0]))
         for e in pool:
             if e['kind'] == 'sdo':
                 e['type'] = rng.choice([t for t in C.versioned_types(e['ver']) if t not in ('relationship', 'sighting')])
@@ -128,17 +128,17 @@ class C18(Profile):
                     tgt = pool[rng.randrange(n_obj)]
                     op['rfilters'] = rng.choice([
                         [['type', '=', t1]], [['type', '!=', t1]], [['type', 'in', [t1, t2]]], [['type', '!=', t1], ['type', '!=', t2]],
-                        [['id', '!=', C.mkid(tgt['type'], tgt['id_n'])]], [['created_by_ref', '=', C.mkid('identity', pool[0]['id_n'])]],
+                        [['id', '!=', SW.eid(tgt)]], [['created_by_ref', '=', SW.eid(pool[0])]],
                         [['type', '=', t1], ['labels', 'contains', 'v0']], [['labels', 'in', ['v1', 'v2']]]])
             if kind == 'query':
                 op['qtype'] = pool[rng.randrange(len(pool))]['type']
             if rng.random() < 0.25 and kind in ('get', 'all_versions', 'query'):
                 tgt = pool[rng.randrange(len(pool))]
                 op['cfilter'] = rng.choice([['type', '=', tgt['type']], ['type', '!=', tgt['type']],
-                                            ['id', '!=', C.mkid(tgt['type'], tgt['id_n'])]])
+                                            ['id', '!=', SW.eid(tgt)]])
             if rng.random() < 0.5 and kind in ('get', 'all_versions', 'query') and op['facade'] == 'nested':
                 tgt = pool[rng.randrange(len(pool))]
-                op['cfilter_inner'] = rng.choice([['type', '!=', tgt['type']], ['id', '!=', C.mkid(tgt['type'], tgt['id_n'])],
+                op['cfilter_inner'] = rng.choice([['type', '!=', tgt['type']], ['id', '!=', SW.eid(tgt)],
                                                   ['type', '=', tgt['type']]])
             reads.append(op)
         # interleave a few late adds among the reads
@@ -313,7 +313,7 @@ class C18(Profile):
         kind = op['op']
         k = op['k'] % len(pool)
         e = pool[k]
-        sid = C.mkid(e['type'], e['id_n'])
+        sid = SW.eid(e)
         j = op.get('j', 0) % SW.n_versions(e)
         cf = op.get('cfilter')
         ctrip = []
